@@ -59,17 +59,6 @@ impl LocalServer {
         Ok(result.map(|x| x.0).unwrap_or(NIL_VERSION_ID))
     }
 
-    fn set_latest_version_id(&mut self, version_id: VersionId) -> Result<()> {
-        let t = self.txn()?;
-        t.execute(
-            "INSERT OR REPLACE INTO data (key, value) VALUES ('latest_version_id', ?)",
-            params![&StoredUuid(version_id)],
-        )
-        .context("Update task query")?;
-        t.commit()?;
-        Ok(())
-    }
-
     fn get_version_by_parent_version_id(
         &mut self,
         parent_version_id: VersionId,
@@ -94,6 +83,9 @@ impl LocalServer {
         Ok(r)
     }
 
+    /// Add the given version and record it as the latest version. Both changes are made in a
+    /// single transaction, so that a failure cannot leave a version that is stored but is not the
+    /// latest version.
     fn add_version_by_parent_version_id(&mut self, version: Version) -> Result<()> {
         let t = self.txn()?;
         t.execute(
@@ -104,6 +96,11 @@ impl LocalServer {
                 version.history_segment
             ],
         )?;
+        t.execute(
+            "INSERT OR REPLACE INTO data (key, value) VALUES ('latest_version_id', ?)",
+            params![&StoredUuid(version.version_id)],
+        )
+        .context("Update task query")?;
         t.commit()?;
         Ok(())
     }
@@ -139,7 +136,6 @@ impl Server for LocalServer {
             parent_version_id,
             history_segment,
         })?;
-        self.set_latest_version_id(version_id)?;
 
         Ok((AddVersionResult::Ok(version_id), SnapshotUrgency::None))
     }
